@@ -1,0 +1,19 @@
+//go:build verif
+
+package jerr
+
+// VerifFileName returns the name of the file the location points into.
+func (l Location) VerifFileName() string {
+	if l.file == nil {
+		return ""
+	}
+	return l.file.Name()
+}
+
+// VerifFileContent returns the content of the file the location points into.
+func (l Location) VerifFileContent() []byte {
+	if l.file == nil {
+		return nil
+	}
+	return l.file.Content()
+}
